@@ -381,3 +381,123 @@ def r_class_state_writers_offline(ctx, repo, modules=None):
         rule.ok('package', '%d classmethods store on their class (%s); no instance method calls one of them'
                 % (len(direct), ', '.join(sorted(f.name for f in direct))))
     return rule
+
+
+# ------------------------------------------------------------------------------------- R-MODE-FLAG-RESTORED
+def r_mode_flag_restored(ctx, repo, modules=('constructor', 'representer')):
+    """construct_object / represent_data re-enter themselves for child nodes.  An instance attribute that such a function sets
+    to a boolean constant and stores again later is a mode switched on for the duration of the call: the later store must put
+    back the value saved before the first store (a local bound from the attribute), never a constant - otherwise an inner call
+    that finishes switches the mode off for the rest of the enclosing one."""
+    from .srcmodel import walk_function, norm
+    rule = ctx.rule('R-MODE-FLAG-RESTORED',
+                    'an instance attribute set to a boolean constant and stored again later in the same re-entrant function is '
+                    'restored from a local that saved its previous value')
+    n = 0
+    for f in repo.all_functions(list(modules)):
+        if f.cls is None or not f.params:
+            continue
+        me = f.params[0]
+        order = {}
+
+        def number(stmts):
+            for st in stmts:
+                order[id(st)] = len(order)
+                for fld in ('body', 'orelse', 'finalbody'):
+                    sub = getattr(st, fld, None)
+                    if isinstance(sub, list) and not isinstance(st, (ast.FunctionDef, ast.ClassDef, ast.Lambda)):
+                        number(sub)
+                for h in getattr(st, 'handlers', []) or []:
+                    number(h.body)
+        number(f.node.body)
+        stores = {}
+        all_assigns = [s for s in walk_function(f.node) if isinstance(s, ast.Assign) and id(s) in order]
+        for s in all_assigns:
+            for t in s.targets:
+                if isinstance(t, ast.Attribute) and isinstance(t.value, ast.Name) and t.value.id == me:
+                    stores.setdefault(t.attr, []).append(s)
+        for attr, ss in sorted(stores.items()):
+            ss.sort(key=lambda s: order[id(s)])
+            firsts = [s for s in ss if isinstance(s.value, ast.Constant) and isinstance(s.value.value, bool)]
+            if len(ss) < 2 or not firsts or ss[0] is not firsts[0]:
+                continue
+            saved = set()
+            for s in all_assigns:
+                if len(s.targets) == 1 and isinstance(s.targets[0], ast.Name) \
+                        and isinstance(s.value, ast.Attribute) and s.value.attr == attr and isinstance(s.value.value, ast.Name) \
+                        and s.value.value.id == me and order[id(s)] < order[id(ss[0])]:
+                    saved.add(s.targets[0].id)
+            n += 1
+            bad = [s for s in ss[1:] if not (isinstance(s.value, ast.Name) and s.value.id in saved)]
+            if bad:
+                rule.fail('%s|%s|not-restored' % (f.qualname, attr), f.module.rel, bad[0].lineno, f.qualname, norm_text(bad[0]),
+                          '%s switches %s.%s to %s for the duration of the call and later stores %s instead of the value it had '
+                          'before: the function re-enters itself for child nodes, so an inner call that finishes changes the mode '
+                          'of the enclosing one (objects constructed / represented after it are handled in the wrong mode)'
+                          % (f.qualname, me, attr, norm(ss[0].value), norm(bad[0].value)[:30]))
+            else:
+                rule.ok(f.loc(ss[0]), '%s.%s set to %s and restored from %s' % (me, attr, norm(ss[0].value), ', '.join(sorted(saved))))
+    if n < 1:
+        raise AnalysisError('R-MODE-FLAG-RESTORED: no temporarily switched mode attribute found (construct_object sets deep_construct)')
+    return rule
+
+
+# ------------------------------------------------------------------------------------- R-EVENT-MARKS-FROM-TOKENS
+def r_event_marks_from_tokens(ctx, repo):
+    """Every position an event of the parser carries comes from a token the parser holds in that very step (peek_token /
+    get_token, or a mark handed down as an argument).  A mark read from an attribute of the parser is a position remembered
+    from an earlier step: across documents it points back into text that was already delivered (marks move backwards)."""
+    from .srcmodel import walk_function, norm
+    rule = ctx.rule('R-EVENT-MARKS-FROM-TOKENS',
+                    'the marks given to the parser\'s events are computed from tokens obtained in the same call (or from a mark '
+                    'parameter), never read from the parser\'s own attributes')
+    c = repo.cls('parser.Parser')
+    n = 0
+    for f in c.methods.values():
+        if not f.params:
+            continue
+        me = f.params[0]
+        assigns = {}
+        for s in walk_function(f.node):
+            if isinstance(s, ast.Assign):
+                for t in s.targets:
+                    elts = t.elts if isinstance(t, (ast.Tuple, ast.List)) else [t]
+                    for x in elts:
+                        if isinstance(x, ast.Name):
+                            assigns.setdefault(x.id, []).append(s.value)
+
+        def state_reads(e, seen):
+            """attribute reads on self that are not the callee of a call, in e and in everything its locals are bound to"""
+            out = []
+            callees = {id(x.func) for x in ast.walk(e) if isinstance(x, ast.Call)}
+            for x in ast.walk(e):
+                if isinstance(x, ast.Attribute) and isinstance(x.value, ast.Name) and x.value.id == me and id(x) not in callees:
+                    out.append(x)
+                elif isinstance(x, ast.Name) and x.id in assigns and x.id not in seen:
+                    seen.add(x.id)
+                    for v in assigns[x.id]:
+                        out.extend(state_reads(v, seen))
+            return out
+        for call in walk_function(f.node):
+            if not (isinstance(call, ast.Call) and isinstance(call.func, ast.Name) and call.func.id.endswith('Event')):
+                continue
+            marks = [k.value for k in call.keywords if k.arg in ('start_mark', 'end_mark')]
+            # positional marks: the last two positional arguments of every event class are start_mark, end_mark unless given
+            # by keyword; events.py fixes the order (anchor/tag/implicit/value first)
+            pos = [a for a in call.args]
+            marks += pos[-2:] if len(pos) >= 2 and not marks else []
+            for mk in marks:
+                n += 1
+                bad = state_reads(mk, set())
+                if bad:
+                    rule.fail('%s|%s|stale-mark|%s' % (f.qualname, call.func.id, bad[0].attr), f.module.rel, call.lineno, f.qualname,
+                              norm_text(call),
+                              'a mark of this %s can come from %s.%s, parser state written in an earlier step: the event then points '
+                              'at text of an earlier node or document instead of at its own tokens (positions are no longer monotone)'
+                              % (call.func.id, me, bad[0].attr))
+                    break
+    if n < 20:
+        raise AnalysisError('R-EVENT-MARKS-FROM-TOKENS: only %d event marks examined in the parser' % n)
+    if not rule.failed:
+        rule.ok('parser.Parser', '%d event marks: all computed from tokens of the same step' % n)
+    return rule
